@@ -12,17 +12,9 @@
    `spec`).  us.interactivebrokers: Spec/ImpSpecIB.v (ibs_statement_output). *)
 From Coq Require Import ZArith List Bool.
 From Knut Require Import Model.Str Model.Dec Model.Date Model.Account Model.Ledger
-     Model.ImpCommonA Model.ImpCommonB Spec.ImpSpecA Spec.ImpSpecB.
+     Model.ImpCommonA Model.ImpCommonB Spec.ImpSpecA Spec.ImpSpecB Spec.ImpStmtA.
 Import ListNotations.
 Open Scope bool_scope.
-
-(* two records are the same *)
-Fixpoint rec_eqb (a b : list str) : bool :=
-  match a, b with
-  | [], [] => true
-  | x :: a', y :: b' => str_eqb x y && rec_eqb a' b'
-  | _, _ => false
-  end.
 
 (* the transaction that realises a booking row: dated on the row's date, described by the row's
    text, consisting of the row's bookings, annotated as the row says *)
